@@ -289,6 +289,10 @@ def check(ctx):
     check_delay_classes(ctx)
     check_samplers(ctx)
     check_setup(ctx)
+    # the queue the delay loops rely on (shared with C20): slot rounding/clamping/accumulation and delivery
+    from . import c20
+    c20.check_add(ctx)
+    c20.check_delivery(ctx)
     ctx.floor('R10.1-one-disposition', 2)
     ctx.floor('R10.2-delivery', 2)
     ctx.floor('R10.4-sampler', 2)
